@@ -31,7 +31,7 @@ def frame_for(L, tag=0):
 
 
 def run(plan):
-    s = Session(plan)
+    s = Session(plan, max_iterations=6000)
     w = s.world
     dev = s.dev
     res = Result()
